@@ -142,6 +142,11 @@ def step (s : St) : List String → St × String
     match parseFmt f, nt.toNat?, parseChunks chunks with
     | some (f, conv), some nt, some cs => (s, opPipe f conv nt cs)
     | _, _, _ => (s, "bad-op")
+  | ["cpipe", f, maxt, _nparts, _bufwords, chunks] =>
+    -- Parser::Create of src/data.cc: the factory passes `Gen.Parse.factoryThreads` (capped by what the host allows)
+    match parseFmt f, maxt.toNat?, parseChunks chunks with
+    | some (f, conv), some maxt, some cs => (s, opPipe f conv (min maxt Gen.Parse.factoryThreads) cs)
+    | _, _, _ => (s, "bad-op")
   | ["tpipe", f, nt, _nparts, _bufwords, chunks] =>
     match parseFmt f, nt.toNat?, parseChunks chunks with
     | some (f, conv), some nt, some cs => (s, opTPipe f conv nt cs)
